@@ -12,6 +12,8 @@ if REPO not in sys.path:
 sys.dont_write_bytecode = True
 
 logging.disable(logging.CRITICAL)
+import warnings  # noqa: E402
+warnings.filterwarnings('ignore')
 
 import cgsmiles  # noqa: E402
 
